@@ -1246,6 +1246,20 @@ def add_rules(model, rng, n_rules=None, conflicts=0.2):
     if r2.random() < 0.4:
         # a point axis in front of (or between) the axes the conditions name: condition axis indices count fvar axes only
         add_point_axis(model, r2, mapped=0.3)
+        # ... and conditions on the point axis itself: the font sits at its one position, so such a condition holds
+        # everywhere (the condition set is decided by its other conditions) or nowhere (the set never applies)
+        pa = next(a for a in model["axes"] if a["min"] == a["max"])
+        pos = pa["map"][0][1] if pa["map"] else pa["default"]
+        for rule in rules:
+            for cs in rule["sets"]:
+                if r2.random() < 0.3:
+                    kind = r2.random()
+                    if kind < 0.6:
+                        cs.append({"axis": pa["name"], "tag": pa["tag"], "min": pos - r2.randint(0, 5), "max": pos + r2.randint(0, 5)})
+                    elif kind < 0.8:
+                        cs.append({"axis": pa["name"], "tag": pa["tag"], "min": pos + 1, "max": None})
+                    else:
+                        cs.append({"axis": pa["name"], "tag": pa["tag"], "min": None, "max": pos - 1})
     if rules and r2.random() < 0.6 and {"D", "E"} <= have:
         # feature code of the source next to the rules: an aalt feature puts its own lookups in front of everything
         # else in GSUB, so the lookups the rule records point to move (they must move with it)
